@@ -599,21 +599,33 @@ def file_reads_shadowed(ctx, p):
             ctx.ob(p + 'a unshadowed-read-reviewed %s' % b.path, 'K4-confinement', b.path, 'reads file bytes without the overlay by design: ' + UNSHADOWED_OK[uk[0]], True, '')
             continue
         lq = lib.sites_reaching(b, LOGQUERY, lift=False)
+
+        def shadowed_at(cb, s2, depth=2):
+            """(overlay queried on every path to s2, s2 depends on the outcome of that query, witness) - in cb itself, or, for a
+            helper without a query of its own (`find_in_file`, called by `get` on an overlay miss), at every call of it"""
+            lq_ = lib.sites_reaching(cb, LOGQUERY, lift=False)
+            if lq_:
+                w_ = cb.find_path([0], {s2}, removed=set(lq_))
+                g_ = False
+                if w_ is None:
+                    for (sw, yes, no) in cb.control_deps(s2):
+                        t = cb.term(sw)
+                        if t['k'] == 'switch' and op_place(t['a']) is not None:
+                            sl = backward_slice(cb, [op_place(t['a'])])
+                            if any(bi in lq_ for bi, _ in sl.call_sites):
+                                g_ = True
+                return w_ is None, g_, w_
+            callers = [(F.bodies[c], x) for c in sorted(set(F.callers(cb.path))) if c in F.bodies and c != cb.path for x, t in F.bodies[c].calls() if x in F.bodies[c].normal_blocks() and cb.path in call_names(t)]
+            if depth == 0 or not callers or '{closure' in cb.path:
+                return False, False, ['?']
+            res = [shadowed_at(c2, x, depth - 1) for c2, x in callers]
+            return all(r[0] for r in res), all(r[1] for r in res), next((r[2] for r in res if not r[0]), None)
         for i, s2 in enumerate(sites):
             n += 1
-            w = b.find_path([0], {s2}, removed=set(lq)) if lq else ['?']
-            ok = bool(lq) and w is None
-            guarded = False
-            if ok:
-                for (sw, yes, no) in b.control_deps(s2):
-                    t = b.term(sw)
-                    if t['k'] == 'switch' and op_place(t['a']) is not None:
-                        sl = backward_slice(b, [op_place(t['a'])])
-                        if any(bi in lq for bi, _ in sl.call_sites):
-                            guarded = True
+            ok, guarded, w = shadowed_at(b, s2)
             ctx.ob(p + 'b overlay-first %s #%d' % (b.path, i), 'K2-order', b.path,
                    'the log overlay is queried before the file/mapping is read, and the file read happens only depending on the outcome (miss) of that query', ok and guarded,
-                   ('file read reachable without an overlay query: ' + lib.short_path(b, w)) if not ok else 'file read does not depend on the overlay query result', b.loc(s2))
+                   ('file read reachable without an overlay query: ' + (lib.short_path(b, w) if w and w != ['?'] and lq else '?')) if not ok else 'file read does not depend on the overlay query result', b.loc(s2))
     ctx.ob(p + 'c raw-read-sites', 'anchor', '-', 'the survey found the runtime file-read sites (>= 12 on the pinned tree)', n >= 12, '%d sites' % n)
     # who may touch a mapping at all
     mm = sorted(F.direct_callers_of('re:memmap2::MmapMut as std::ops::Deref>::deref$'))
